@@ -230,7 +230,9 @@ int main(int argc, char** argv) {
         # client identifiers: short ones around the create shell; around the import shell long ones that share their
         # first 45 characters
         'client_ids': ('"plant.hall2.line7.station12.operatorPanel.left", "plant.hall2.line7.station12.operatorPanel.right", '
-                       '"plant.hall2.line7.station12.operatorPanel.middle"') if cfg.get('fac') == 'import' else '"A", "B", "C"',
+                       '"plant.hall2.line7.station12.operatorPanel.middle"') if cfg.get('fac') == 'import' else
+                      # bare-interface variant: identifiers that differ only in surrounding white space
+                      ('" B", "B ", "B"' if cfg.get('blank_ids') else '"A", "B", "C"'),
         # REPRESENTATION: around the import shell the logger is a temporary (the shell must keep its own copy)
         'construct': ('sh.reset(new Shell(loc, %s::ILog{}, std::string("in") + "st"));' % sns) if cfg.get('fac') == 'import'
         else 'sh.reset(new Shell(loc, log, "inst"));',
@@ -268,6 +270,8 @@ def mc_case(delta=None):
 def sources(case):
     facts = M.Facts(case['model'])
     cfg = case['cfg']
+    if case.get('point', {}).get('mcmenu') == 'bare':
+        cfg = dict(cfg, blank_ids=True)     # the harness around the bare interface registers " B", "B " and "B"
     files = B.build(case['model'], cfg)
     src = {name: text for name, text, _h in files}
     src[facts.base + '.hh'] = M.mock_header(case['model'], probe_include='verif_types.hh')
